@@ -356,3 +356,39 @@ Theorem C17_fed_keys_real_table : forall ls e r,
   Forall (fun k => k = (KKey key_ControlM, [13%Z])) (fedl (co s)).
 Proof. exact fed_real_table. Qed.
 Print Assumptions C17_fed_keys_real_table.
+
+(* The accept boundary for EVERY schedule, closing the input (EOF) included.
+   Three clauses of C17_nothing_after_accept are false once the input may be
+   closed (C17_eof_witness below); what holds for every label sequence, under
+   cpr_silent only: after the result is set only reports reach handlers, each
+   alone; nothing is dropped late; a reset() never throws away anything from
+   input_queue (ok_ev_w); exit() is never called twice; and the key buffer can
+   be non-empty with the result set only if that result is the EOF one. *)
+Theorem C17_after_accept_any_schedule : forall (E bid res PS : Type)
+  (lookup lookup_scan : E -> list kp -> option bid) (waits : E -> list kp -> bool)
+  (eff : bid -> list kp -> E -> E * option res) (is_cprh : bid -> bool) (cpr_lookup : E -> option bid)
+  (feeds : bid -> list kp -> E -> list kp) (restart : E -> E)
+  (pfeed : str -> PS -> PS * list kp) (pflush : PS -> PS * list kp) (res_eof : res),
+  let run := @run E bid res PS lookup lookup_scan waits eff is_cprh cpr_lookup feeds restart pfeed pflush res_eof in
+  let init := @init E bid res PS in
+  cpr_silent eff cpr_lookup feeds ->
+  forall ls e p r,
+  let s := run ls (init e p r) in
+  Forall (@ok_ev_w bid) (rlog (co s)) /\ cph (co s) <> CBroken res /\
+  (forall x, cph (co s) = CDone x -> x <> res_eof -> kbuf (co s) = []).
+Proof. exact after_accept_any. Qed.
+Print Assumptions C17_after_accept_any_schedule.
+
+(* The clauses that EOF breaks, on the instance with the real table: c-x typed,
+   then the write end closed - the prompt ends with EOFError while c-x is still
+   in the key buffer; the next prompt's reset() throws it away; a timeoutlen
+   flush that arrives before the application has finished is stored as
+   type-ahead.  (No effect on any returned line: see design.d, round 7.) *)
+Theorem C17_eof_witness :
+  (let s := e_run w_eof (e_init_sys false false) in
+   late (co s) = true /\ length (kbuf (co s)) = 1%nat /\
+   results (e_run (w_eof ++ [LExit]) (e_init_sys false false)) = [REof]) /\
+  has_lost (co (e_run (w_eof ++ [LExit; LStart]) (e_init_sys false false))) = true /\
+  has_flush (store (e_run (w_eof ++ [LFlushKeys; LExit]) (e_init_sys false false))) = true.
+Proof. exact (conj witness_eof_kbuf (conj witness_eof_lost witness_eof_flush_stored)). Qed.
+Print Assumptions C17_eof_witness.
